@@ -15,6 +15,7 @@ type gen struct {
 	w         *world
 	n         int
 	lastProof map[string]interface{}
+	spareJWT  string // another valid JWT credential of the same issuer, not part of the presentation that was signed
 }
 
 func (g *gen) fresh(prefix string) string {
@@ -196,6 +197,21 @@ func (g *gen) presentation(r *hx.Rng, extraCtx string) map[string]interface{} {
 		creds[i] = g.credential(r, "")
 	}
 
+	// every other presentation also carries credentials in JWT form (compact JWS strings)
+	g.spareJWT = ""
+
+	if r.Bool() {
+		for i := 0; i < 1+r.Intn(2); i++ {
+			if j, err := g.w.jwtCredential(g.credential(r, "")); err == nil {
+				creds = append(creds, j)
+			}
+		}
+
+		if j, err := g.w.jwtCredential(g.credential(r, "")); err == nil {
+			g.spareJWT = j
+		}
+	}
+
 	return map[string]interface{}{
 		"@context":             ctx,
 		"id":                   "urn:uuid:" + g.fresh("p"),
@@ -239,6 +255,10 @@ func (g *gen) signedDoc(r *hx.Rng, kind string, sd *suiteDef, idx int) (map[stri
 
 	if r.Intn(3) == 0 {
 		so.purpose = "authentication"
+	}
+
+	if idx%3 == 1 && !sd.di {
+		so.nonce = []byte(g.fresh("nonce"))
 	}
 
 	if sd.di {
@@ -386,6 +406,32 @@ func (g *gen) edits(r *hx.Rng, kind string, sd *suiteDef, signed map[string]inte
 			}
 
 			claimLeaves = append(claimLeaves, n)
+
+			if s0, isStr := get(signed, n.p).(string); isStr && kind == "vp" && len(n.p) == 2 && n.p.under("verifiableCredential") &&
+				strings.Count(s0, ".") == 2 {
+				// a credential in JWT form inside the presentation
+				add("jwtcreddelete "+n.p.String(), "must-reject", func(d map[string]interface{}) bool {
+					del(d, n.p)
+					return true
+				})
+
+				if g.spareJWT != "" {
+					spare := g.spareJWT
+
+					add("jwtcredswap "+n.p.String(), "must-reject", func(d map[string]interface{}) bool {
+						set(d, n.p, spare)
+						return true
+					})
+					add("jwtcredinsert "+n.p.String(), "must-reject", func(d map[string]interface{}) bool {
+						a, _ := d["verifiableCredential"].([]interface{})
+						d["verifiableCredential"] = append(append([]interface{}{}, a...), spare)
+
+						return true
+					})
+				}
+
+				continue
+			}
 
 			leafClass := "must-reject"
 			if n.p.has("@context") {
@@ -549,6 +595,116 @@ func (g *gen) edits(r *hx.Rng, kind string, sd *suiteDef, signed map[string]inte
 		})
 	}
 
+	// members whose names differ from a member of the data model by letter case only, placed AFTER the real member in
+	// the bytes (encoding/json folds case when it fills the typed credential / presentation)
+	cv := func(name string, at path, key string, val interface{}) {
+		es = append(es, edit{name: "casevariant " + at.String() + "/" + key, class: "casevariant", apply: func(d map[string]interface{}) bool {
+			o, ok := get(d, at).(map[string]interface{})
+			if !ok {
+				return false
+			}
+
+			o[lastPrefix+key] = clone(val)
+
+			return true
+		}})
+		_ = name
+	}
+
+	evilSubject := map[string]interface{}{"id": "did:example:evil", "a1": "forged"}
+
+	if kind == "vc" {
+		cv("", nil, "Issuer", "did:example:evil")
+		cv("", nil, "ISSUER", "did:example:evil")
+		cv("", nil, "IssuanceDate", "1999-01-01T00:00:00Z")
+		cv("", nil, "ExpirationDate", "2999-01-01T00:00:00Z")
+		cv("", nil, "ID", "urn:evil:id")
+		cv("", nil, "Id", "urn:evil:id")
+		cv("", nil, "iD", "urn:evil:id")
+		cv("", nil, "Type", []interface{}{"VerifiableCredential", "OtherCredential"})
+		cv("", nil, "CredentialSubject", evilSubject)
+		cv("", nil, "Proof", []interface{}{})
+
+		if _, isObj := signed["issuer"].(map[string]interface{}); isObj {
+			cv("", path{"issuer"}, "ID", "did:example:evil")
+			cv("", path{"issuer"}, "Name", "Evil")
+		}
+
+		switch cs := signed["credentialSubject"].(type) {
+		case map[string]interface{}:
+			cv("", path{"credentialSubject"}, "ID", "did:example:evil")
+			cv("", path{"credentialSubject"}, "Id", "did:example:evil")
+		case []interface{}:
+			if _, isObj := cs[0].(map[string]interface{}); isObj {
+				cv("", path{"credentialSubject", 0}, "ID", "did:example:evil")
+			}
+		}
+	} else {
+		cv("", nil, "Holder", "did:example:evil")
+		cv("", nil, "ID", "urn:evil:id")
+		cv("", nil, "Type", []interface{}{"VerifiablePresentation", "OtherCredential"})
+		cv("", nil, "VerifiableCredential", []interface{}{})
+		cv("", nil, "Proof", []interface{}{})
+	}
+
+	// the verifier is configured with the suites of some proof types only
+	{
+		var types []string
+
+		for i := 0; i < nproofs; i++ {
+			pm, _ := get(signed, proofPath(signed, i)).(map[string]interface{})
+			types = append(types, strOf(pm["type"]))
+		}
+
+		if !sd.di {
+			for i := range types {
+				i := i
+				only := []string{types[i]}
+
+				es = append(es, edit{name: fmt.Sprintf("suitesubset only#%d", i), class: "model", apply: func(d map[string]interface{}) bool {
+					g.w.suiteSubset = only
+					return true
+				}})
+
+				if nproofs > 1 {
+					j := (i + 1) % nproofs
+
+					es = append(es, edit{name: fmt.Sprintf("suitesubsettamper only#%d", i), class: "must-reject", apply: func(d map[string]interface{}) bool {
+						g.w.suiteSubset = only
+						m, _ := get(d, proofPath(d, j)).(map[string]interface{})
+
+						for _, h := range []string{"proofValue", "jws"} {
+							if sv := strOf(m[h]); len(sv) > 12 {
+								c := byte('A')
+								if sv[len(sv)-10] == 'A' {
+									c = 'B'
+								}
+
+								m[h] = sv[:len(sv)-10] + string(c) + sv[len(sv)-9:]
+							}
+						}
+
+						return true
+					}})
+				}
+			}
+
+			// only a suite of a type that none of the proofs has
+			for _, s2 := range g.w.suites {
+				if !s2.di && !contains(types, s2.name) {
+					other := []string{s2.name}
+
+					es = append(es, edit{name: "suitesubset other", class: "model", apply: func(d map[string]interface{}) bool {
+						g.w.suiteSubset = other
+						return true
+					}})
+
+					break
+				}
+			}
+		}
+	}
+
 	// proof options
 	for i := 0; i < nproofs; i++ {
 		i := i
@@ -603,6 +759,65 @@ func (g *gen) edits(r *hx.Rng, kind string, sd *suiteDef, signed map[string]inte
 
 				return true
 			})
+		}
+
+		// other literals of the same instant: the digest is over the RECEIVED `created` literal (linked-data suites);
+		// Data Integrity re-formats the parsed time (the model decides there)
+		if cr := strOf(pm["created"]); strings.HasSuffix(cr, "Z") {
+			crClass := "must-reject"
+			if sd.di {
+				crClass = "model"
+			}
+
+			for _, v := range [][2]string{{"nozone", strings.TrimSuffix(cr, "Z")}, {"offset", strings.TrimSuffix(cr, "Z") + "+00:00"},
+				{"frac", strings.TrimSuffix(cr, "Z") + ".000Z"}, {"frac0", strings.TrimSuffix(cr, "Z") + ".0Z"}} {
+				v := v
+
+				add(fmt.Sprintf("optcreatedvar %s#%d", v[0], i), crClass, func(d map[string]interface{}) bool {
+					m, _ := get(d, proofPath(d, i)).(map[string]interface{})
+					m["created"] = v[1]
+
+					return true
+				})
+			}
+		}
+
+		// nonce: covered by the digest in the detached-JWS representation, excluded in the proofValue representation
+		{
+			_, isJWS := pm["jws"]
+			nClass := "model"
+
+			if isJWS && !sd.di && strOf(pm["type"]) != "DataIntegrityProof" {
+				nClass = "must-reject"
+			}
+
+			if _, has := pm["nonce"]; has {
+				add(fmt.Sprintf("optnonce change#%d", i), nClass, func(d map[string]interface{}) bool {
+					m, _ := get(d, proofPath(d, i)).(map[string]interface{})
+					m["nonce"] = "b3RoZXItbm9uY2U"
+
+					return true
+				})
+				add(fmt.Sprintf("optnonce delete#%d", i), nClass, func(d map[string]interface{}) bool {
+					m, _ := get(d, proofPath(d, i)).(map[string]interface{})
+					delete(m, "nonce")
+
+					return true
+				})
+				add(fmt.Sprintf("optnonce reencode#%d", i), "model", func(d map[string]interface{}) bool {
+					m, _ := get(d, proofPath(d, i)).(map[string]interface{})
+					m["nonce"] = strOf(m["nonce"]) + "="
+
+					return true
+				})
+			} else {
+				add(fmt.Sprintf("optnonce add#%d", i), nClass, func(d map[string]interface{}) bool {
+					m, _ := get(d, proofPath(d, i)).(map[string]interface{})
+					m["nonce"] = "YWRkZWQtbm9uY2U"
+
+					return true
+				})
+			}
 		}
 
 		// another key of the same suite: named in the proof, or handed out by the resolver
@@ -690,7 +905,7 @@ func (g *gen) edits(r *hx.Rng, kind string, sd *suiteDef, signed map[string]inte
 			return true
 		})
 
-		for _, kv := range [][2]string{{"nonce", "bm9uY2U"}, {"nonce", "%%%"}, {"id", "urn:verif:proof"}, {"creator", "did:example:x#k"},
+		for _, kv := range [][2]string{{"nonce", "%%%"}, {"id", "urn:verif:proof"}, {"creator", "did:example:x#k"},
 			{"zz_unknown", "u"}, {"capabilityChain", "notarray"}} {
 			kv := kv
 
@@ -800,6 +1015,10 @@ type corpusCase struct {
 	Ops      []op                   `json:"ops"`
 	Class    string                 `json:"class"`
 	Edit     string                 `json:"edit"`
+	// credentials issued as JWT at run time (keys are fresh per run) and appended to verifiableCredential; SpareJWT is
+	// issued too and replaces the value "$SPARE_JWT" in the ops
+	JWTCreds []map[string]interface{} `json:"jwt_credentials,omitempty"`
+	SpareJWT map[string]interface{}   `json:"spare_jwt,omitempty"`
 }
 
 func runCorpusCase(w *world, tr *hx.Trace, genName string, c corpusCase) {
@@ -817,6 +1036,24 @@ func runCorpusCase(w *world, tr *hx.Trace, genName string, c corpusCase) {
 	}
 
 	un, _ := normalise(c.Unsigned).(map[string]interface{})
+
+	for _, jc := range c.JWTCreds {
+		j, err := w.jwtCredential(normalise(jc).(map[string]interface{})) //nolint:forcetypeassert
+		must(err)
+
+		a, _ := un["verifiableCredential"].([]interface{})
+		un["verifiableCredential"] = append(a, j)
+	}
+
+	spare := ""
+
+	if c.SpareJWT != nil {
+		var err error
+
+		spare, err = w.jwtCredential(normalise(c.SpareJWT).(map[string]interface{})) //nolint:forcetypeassert
+		must(err)
+	}
+
 	sign := w.signVC
 
 	if c.Kind == "vp" {
@@ -840,9 +1077,18 @@ func runCorpusCase(w *world, tr *hx.Trace, genName string, c corpusCase) {
 		os.Exit(2)
 	}
 
+	w.suiteSubset = nil
+	_, _, w.baseline = w.verifyParsed(c.Kind, toJSON(signed), false)
+
+	for i := range c.Ops {
+		if string(c.Ops[i].Value) == `"$SPARE_JWT"` {
+			c.Ops[i].Value = toJSON(spare)
+		}
+	}
+
 	applyOps(signed, c.Ops)
 	w.runCase(tr, genName, caseDesc{Kind: c.Kind, Suite: c.Suite, Repr: c.Repr, Edit: c.Edit, Class: c.Class,
-		Unsigned: c.Unsigned, Ops: c.Ops}, signed, 1, true)
+		Unsigned: c.Unsigned, Ops: c.Ops, JWTCreds: c.JWTCreds, SpareJWT: c.SpareJWT}, signed, 1, true)
 }
 
 func corpusFile(w *world, tr *hx.Trace, f string) {
@@ -871,7 +1117,7 @@ func replay(w *world, tr *hx.Trace, f string) {
 	cd := rf.Case
 	if cd.Unsigned != nil {
 		runCorpusCase(w, tr, "replay", corpusCase{Kind: cd.Kind, Suite: cd.Suite, Repr: cd.Repr, Unsigned: cd.Unsigned,
-			Ops: cd.Ops, Class: cd.Class, Edit: cd.Edit})
+			Ops: cd.Ops, Class: cd.Class, Edit: cd.Edit, JWTCreds: cd.JWTCreds, SpareJWT: cd.SpareJWT})
 
 		return
 	}
@@ -885,7 +1131,7 @@ func replay(w *world, tr *hx.Trace, f string) {
 		sd := w.suites[i%len(w.suites)]
 		kind := "vc"
 
-		if i%7 == 6 {
+		if i%3 == 2 {
 			kind = "vp"
 		}
 
@@ -903,6 +1149,9 @@ func replay(w *world, tr *hx.Trace, f string) {
 			if e.name == cd.Edit {
 				d, _ := clone(signed).(map[string]interface{})
 				w.badFetch = map[string]*keyInfo{}
+
+				w.suiteSubset = nil
+				_, _, w.baseline = w.verifyParsed(kind, toJSON(signed), false)
 
 				if e.apply(d) {
 					w.runCase(tr, "replay", cd, d, n, true)
